@@ -55,6 +55,10 @@ def run(ctx):
     ctx.extra["limit_schedules"] = n3
     stages.mgr_family(ctx, ["C08.", "C04.rejectedUpdateFails"], ["all"], lambda s: s["stim"]["kind"] in ("OnDataQueued", "OnDataReceived", "UpdateValidation"),
                       quick_n=3000, model=not ctx.quick(), sims=False, invariants=["M_C04_Faithful"], keep=lambda l: any(k in l for k in ('"kind":"UpdateValidation"', '"kind":"OnDataQueued"', '"kind":"OnDataReceived"')))
+    if not ctx.quick():
+        # two-node replays of Sys.tla behaviours (limit schedules) on two real managers, every step judged by the manager judge
+        from props import c01 as _c01
+        _c01.sys_replay(ctx, prefixes=["C08."], n_thorough=60)
     # transport level, real manager + real graphsync adapter: the re-validation's resume must be the last word the request hears
     b = ctx.go_bin("lockx")
     out = ctx.path("cbrace.ndjson")
